@@ -537,7 +537,7 @@ func rootbuild() *srvInst {
 		tunnel: func(verb, query string, body []byte) ([]byte, http.Header) {
 			return restli.EncodeTunnelledQuery(verb, query, body)
 		},
-		client: func(rt http.RoundTripper, resolver interface{}, threshold int) *clientFns {
+		client: func(rt http.RoundTripper, resolver interface{}, threshold int, cfg *clientCfg) *clientFns {
 			var hr restli.HostnameResolver
 			if r, ok := resolver.(restli.HostnameResolver); ok {
 				hr = r
@@ -547,9 +547,10 @@ func rootbuild() *srvInst {
 			}
 			c := &restli.Client{Client: &http.Client{Transport: rt}, HostnameResolver: hr, QueryTunnellingThreshold: threshold}
 			return &clientFns{
-				call:  func(op, id string) string { return rootcall(c, op, id) },
-				build: func(op, id string) (*http.Request, error) { return rootbuildReq(c, op, id) },
-				send:  func(req *http.Request) string { return rootsend(c, req) },
+				callRaw:  func(op, id string) string { return rootcall(c, cfg, op, id) },
+				buildRaw: func(op, id string) (*http.Request, error) { return rootbuildReq(c, cfg, op, id) },
+				sendRaw:  func(req *http.Request) string { return rootsend(c, req) },
+				cfg:      cfg,
 			}
 		},
 	}
@@ -565,11 +566,19 @@ func rooterrString(err error) string {
 	return "error:" + fmt.Sprintf("%T", err)
 }
 
+// the context of request id: the driver's id for the transport (client.go) and the ExtraRequestHeaders callback the client's
+// configuration calls for (one shared static header set, a new map per call, a nil map, none)
+func rootctx(cfg *clientCfg, id string) context.Context {
+	ctx := context.WithValue(context.Background(), reqIDKey{}, id)
+	if extras := cfg.extras(id); extras != nil {
+		ctx = restli.ExtraRequestHeaders(ctx, extras)
+	}
+	return ctx
+}
+
 // one call through the shared restli.Client; the observation names everything that came back
-func rootcall(c *restli.Client, op, id string) string {
-	ctx := restli.ExtraRequestHeaders(context.Background(), func() (http.Header, error) {
-		return http.Header{"X-Req": []string{id}}, nil
-	})
+func rootcall(c *restli.Client, cfg *clientCfg, op, id string) string {
+	ctx := rootctx(cfg, id)
 	ctx, captured := restli.AddResponseHeadersCaptor(ctx)
 	rp := func(s string) restli.ResourcePathString { return restli.ResourcePathString(s) }
 	var out string
@@ -699,10 +708,8 @@ func rootlongQuery(id string) restli.QueryParamsString {
 }
 
 // a request built with the exported New*Request functions, to be sent LATER (other requests are built in between)
-func rootbuildReq(c *restli.Client, op, id string) (*http.Request, error) {
-	ctx := restli.ExtraRequestHeaders(context.Background(), func() (http.Header, error) {
-		return http.Header{"X-Req": []string{id}}, nil
-	})
+func rootbuildReq(c *restli.Client, cfg *clientCfg, op, id string) (*http.Request, error) {
+	ctx := rootctx(cfg, id)
 	rp := func(s string) restli.ResourcePathString { return restli.ResourcePathString(s) }
 	switch op {
 	case "b-update-long":
